@@ -242,7 +242,7 @@ def gen_where(rng, base, now, kinds=None, cols=None, allow_rel=True, ub_base=Non
 
     if rng.random() < rel_bias:           # relative lower bound (often in months) + explicit upper bound near `now`
         ws = [rel(True, "time" if rng.random() < 0.95 else None), A(("cmp", "time", rng.choice(["<", "<="]), mk_lit(rng, around(rng, now + rng.choice([0, 1, 2]) * DAY), kinds)))]
-    elif day_files and shape < 0.09:      # several days, start time-of-day later than end time-of-day, last day compacted
+    elif day_files and shape < 0.12:      # several days, start time-of-day later than end time-of-day, last day compacted
         dd = rng.choice(day_files)
         a = (dd - rng.choice([1, 1, 2])) * DAY + rng.randrange(12, 24) * HOUR + rng.choice([0, 0, 1800 * US])
         b = dd * DAY + rng.randrange(1, 12) * HOUR + rng.choice([0, 0, 60 * US])
@@ -448,6 +448,9 @@ def build_layout(rng):
     day_file(base // DAY - 1)
     day_file(base // DAY + 3)
     day_file(base // DAY + 10)
+    for dd in (base // DAY - 1, base // DAY + 3, base // DAY + 10):       # the evening before each compacted day is still hourly
+        hour_file(dd * 24 - 1)
+        hour_file(dd * 24 - 3)
     hour_file((1577836800 * US) // HOUR - 2)          # 2019-12-31 22:00
     hour_file((1578614400 * US) // HOUR - 3)          # 2020-01-09 21:00
     hour_file((1578614400 * US) // HOUR + 1)          # 2020-01-10 01:00
